@@ -1,2 +1,12 @@
 #!/bin/sh
-exit 0
+# setup_cmd: build the framework offline from files on disk only.
+set -e
+cd "$(dirname "$0")/.."
+export GOFLAGS=-mod=mod GOPROXY=off GOSUMDB=off GOTOOLCHAIN=local
+mkdir -p evidence replays .build
+(cd lean && lake build SifVerif sifdriver)
+if [ -d extract ]; then (cd extract && go build -o ../.build/extract . ) ; fi
+REPO="${REPO:-/repo}"
+sed "s#__REPO__#$REPO#" harness/go.mod.tmpl > .build/go.mod && cp "$REPO/go.sum" .build/go.sum
+(cd harness && go build -modfile ../.build/go.mod -o ../.build/sifharness-setup . )
+echo setup ok
